@@ -80,7 +80,7 @@ func Wide() Profile {
 func Request() Profile {
 	return Profile{Name: "request", MaxServices: 2, MaxMethods: 3, MaxFields: 6, Runtime: true,
 		Validations: true, Defaults: true, UserTypes: true, Aliases: true, Recursive: true, MultiRoute: true, BasePaths: true, Cookies: true,
-		ExplicitBody: true, Maps: true, Bytes: true, NoBodyVerbs: true, PrimPayloads: true, Errors: true, ParamHeavy: true}
+		ExplicitBody: true, Maps: true, Bytes: true, NoBodyVerbs: true, PrimPayloads: true, Errors: true, ParamHeavy: true, Unions: true}
 }
 
 // Errors is the C05 profile.
@@ -130,7 +130,7 @@ func Security() Profile {
 func Response() Profile {
 	return Profile{Name: "response", MaxServices: 2, MaxMethods: 3, MaxFields: 6, Runtime: true,
 		Validations: true, Defaults: true, UserTypes: true, Aliases: true, Recursive: true, Tags: true, RespHeaders: true, Cookies: true,
-		ExplicitBody: true, Maps: true, Bytes: true, PrimPayloads: true, ResultTypes: true, RespHeavy: true, AliasDefaults: true}
+		ExplicitBody: true, Maps: true, Bytes: true, PrimPayloads: true, ResultTypes: true, RespHeavy: true, AliasDefaults: true, Unions: true}
 }
 
 // G carries the state of one design generation.
@@ -444,6 +444,17 @@ func (g *G) object(depth int, self string) *m.Type {
 	for i := 0; i < n; i++ {
 		f := &m.Field{Name: g.fieldName(scope)}
 		f.Attr = g.attr(depth, self)
+		if f.Attr.Type.Kind == m.Union {
+			// open finding: two OneOf attributes with the same name share the
+			// Go types of the first one's alternatives
+			k := "U:" + norm(f.Name)
+			if g.used[k] && g.avoid("C03-unions-with-the-same-name-share-alternative-types") {
+				g.typeSeq++
+				f.Name = fmt.Sprintf("choice%d", g.typeSeq)
+				k = "U:" + norm(f.Name)
+			}
+			g.used[k] = true
+		}
 		f.Required = rapid.IntRange(0, 2).Draw(t, "required") == 0
 		if f.Attr.Default != nil && f.Required && rapid.Bool().Draw(t, "reqdefault") {
 			f.Required = false
@@ -602,7 +613,11 @@ func (g *G) typ(depth int, self string) *m.Type {
 		n := rapid.IntRange(2, 3).Draw(t, "nunion")
 		scope := map[string]bool{}
 		for i := 0; i < n; i++ {
-			u.Fields = append(u.Fields, &m.Field{Name: g.pickName([]string{"alt_a", "alt_b", "alt_c", "num", "text"}, scope, "uname"), Attr: m.Prim(rapid.SampledFrom([]m.Kind{m.String, m.Int, m.Boolean, m.Float64}).Draw(t, "ukind"))})
+			alt := m.Prim(rapid.SampledFrom([]m.Kind{m.String, m.Int, m.Boolean, m.Float64}).Draw(t, "ukind"))
+			if g.p.Validations && g.p.Runtime && rapid.Bool().Draw(t, "uval") && !g.avoid("C04-union-alternative-validations-not-enforced") {
+				alt.V = g.validation(alt, 0)
+			}
+			u.Fields = append(u.Fields, &m.Field{Name: g.pickName([]string{"alt_a", "alt_b", "alt_c", "num", "text"}, scope, "uname"), Attr: alt})
 		}
 		return u
 	}
